@@ -1257,6 +1257,15 @@ class ToRx:
             if (set(fields) == {'dimension', 'units', 'value'} and base is None and is_phantom(fields['dimension'])
                     and is_phantom(fields['units'])) or (set(fields) == {'value'} and base == ['var', 'self']):
                 return '(.call1 %d %s)' % (self.n.code('c', 'Quantity{value}'), self.expr(fields['value']))
+            # any other struct literal without a base: the constructor named by the struct and its data-carrying
+            # fields (in source order), applied to the field expressions; `PhantomData` fields carry no data
+            if base is None:
+                data = [(f, x) for f, x in fields.items() if not is_phantom(x)]
+                sname = e[1].split('::')[-1].strip() if isinstance(e[1], str) else None
+                if sname and '$' not in sname and len(data) <= 2:
+                    c = self.n.code('c', '%s{%s}' % (sname, ','.join(f for f, _ in data)))
+                    a = [self.expr(x) for _, x in data]
+                    return '(.call%d %d%s)' % (len(a), c, ''.join(' ' + x for x in a))
             raise BodyError('struct literal')
         if k == 'macro_rule':
             c = self.n.code('c', '%s!(@%s)' % (e[1], e[2]))
